@@ -51,6 +51,11 @@ struct Ser {
     if (n.empty()) if (auto *TD = RD->getTypedefNameForAnonDecl()) n = TD->getNameAsString();
     return n;
   }
+  std::string declid(const VarDecl *VD) {
+    // identity of a declaration within the unit (two block-scoped locals of the same name differ)
+    PresumedLoc P = SM.getPresumedLoc(SM.getExpansionLoc(VD->getLocation()));
+    return VD->getNameAsString() + "@" + (P.isValid() ? std::to_string(P.getLine()) + ":" + std::to_string(P.getColumn()) : std::string("?"));
+  }
   std::string ty(QualType T) { return T.getCanonicalType().getAsString(); }
   json::Value expr(const Stmt *S) {
     if (!S) return nullptr;
@@ -77,7 +82,7 @@ struct Ser {
     if (auto *DR = dyn_cast<DeclRefExpr>(S)) {
       const ValueDecl *D = DR->getDecl(); o["name"] = D->getNameAsString();
       if (isa<FunctionDecl>(D)) o["k"] = "fn";
-      else if (auto *VD = dyn_cast<VarDecl>(D)) { o["k"] = "var"; o["decl"] = isa<ParmVarDecl>(VD) ? "param" : VD->hasGlobalStorage() ? (VD->isStaticLocal() ? "static" : "global") : "local"; }
+      else if (auto *VD = dyn_cast<VarDecl>(D)) { o["k"] = "var"; o["decl"] = isa<ParmVarDecl>(VD) ? "param" : VD->hasGlobalStorage() ? (VD->isStaticLocal() ? "static" : "global") : "local"; o["did"] = declid(VD); }
       else o["k"] = "ref";
       return std::move(o);
     }
@@ -96,7 +101,7 @@ struct Ser {
     }
     if (auto *DS = dyn_cast<DeclStmt>(S)) {
       o["k"] = "decl"; json::Array a;
-      for (auto *D : DS->decls()) if (auto *VD = dyn_cast<VarDecl>(D)) { json::Object v; v["name"] = VD->getNameAsString(); v["t"] = ty(VD->getType()); if (VD->hasInit()) v["init"] = expr(VD->getInit()); a.push_back(std::move(v)); }
+      for (auto *D : DS->decls()) if (auto *VD = dyn_cast<VarDecl>(D)) { json::Object v; v["name"] = VD->getNameAsString(); v["t"] = ty(VD->getType()); v["did"] = declid(VD); if (VD->hasInit()) v["init"] = expr(VD->getInit()); a.push_back(std::move(v)); }
       o["vars"] = std::move(a); return std::move(o);
     }
     if (auto *RS = dyn_cast<ReturnStmt>(S)) { o["k"] = "return"; if (RS->getRetValue()) o["e"] = expr(RS->getRetValue()); return std::move(o); }
